@@ -1,152 +1,94 @@
 (* C13 -- WebSocket messages arrive intact, in order, on an RFC 6455-valid wire.
    Property theorems only.  Model: Model/WsWrite.v (conn.go write path, compression.go truncWriter,
    mask.go, prepared.go) and, in the same file, an independent RFC 6455 / 7692 frame parser
-   [rfc_parse], validity predicate [rfc_valid] and reassembly [messages].
+   [rfc_parse], validity predicate [rfc_valid], reassembly [messages] and event list [events]
+   (data messages and control frames, in wire order, with their payloads).
 
-   Scripts ([item], [wr] in Proofs/WsWriteSession.v) are what an application does with the write
-   API: NextWriter + any sequence of Write / WriteString / ReadFrom (any reader behaviour) /
-   interleaved WriteControl + Close, the WriteMessage helper (server fast path with the "extra"
-   bypass included), and WriteControl between messages.  [run_items] runs them through the model
-   functions that the harness cases are run through ([script_is_step_op]). *)
+   Operations ([op], Proofs/WsWriteOps.v) are the calls of the write API, one constructor each:
+   NextWriter (which, as prepWrite does, first closes a writer the application left open),
+   Write / WriteString / ReadFrom (any reader behaviour), Close, WriteMessage (server fast path
+   with the "extra" bypass, or NextWriter+Write+Close), WriteJSON, WritePreparedMessage (frame
+   cache per (message, role, compression, level)), WriteControl (ping/pong, also between two
+   writes of a message), SetCompressionLevel, EnableWriteCompression.  compress/flate and
+   encoding/json are oracles: operations carry the chunks the flate writer handed to the
+   truncWriter during the call and the encoder's output.  [run_op] is the model function the
+   harness cases run through ([c13_ops_are_harness_ops]).
+
+   [spec_run] is the specification: pure bookkeeping over the operations (which writer is open,
+   what was written to it, whether the next message is compressed, which prepared frames exist)
+   that yields the list of events the peer is entitled to see, or None if the application
+   misuses the API (Write without a writer, a control frame over 125 bytes, an unknown message
+   type, a flate stream that does not end in 00 00 ff ff, an argument of 2^62 bytes ...). *)
 From Verif Require Import Lib.Base Lib.Sx Model.WsWrite.
-From Verif Require Import Proofs.WsWrite Proofs.WsWriteFrame Proofs.WsWriteSession Proofs.WsWriteZ Proofs.WsWritePrepared Proofs.WsWriteScript.
+From Verif Require Import Proofs.WsWrite Proofs.WsWriteFrame Proofs.WsWriteSession Proofs.WsWriteOps.
 Open Scope N_scope.
 
-(* ---- c13_wire_valid: connections without per-message compression ----
+(* ---- c13_wire_valid ----
    For EVERY role (client masks with whatever keys the oracle stream [ks] yields, server does
-   not), EVERY write buffer size B >= 1 (blen = B + maxFrameHeaderSize >= 15), EVERY sequence
-   of messages of any size, EVERY mix of the write APIs and EVERY partition into partial writes:
-   no call fails, the bytes put on the transport parse completely under the independent parser,
-   the frames satisfy [rfc_valid] (known opcodes, RSV bits clear, mask bit by role, MINIMAL
-   length form, control frames final and <= 125 bytes, FIN/continuation sequencing, wire ends
-   between messages), and reassembling the parsed frames yields exactly the messages written, in
-   order, with their types (this is c13_roundtrip for the independent reassembly [messages]). *)
-Theorem c13_wire_valid c ks its :
-  15 <= blen c < big -> Forall (fun k : bytes => length k = 4%nat) ks -> Forall item_ok its ->
-  exists s', run_items c (init_cst false ks) its = Ok (s', eOK) /\
-  exists fs, rfc_parse (wire_of s') = Some fs /\ rfc_valid (srv c) false fs = true /\
-             messages fs = Some (concat (map item_msgs its)).
-Proof. exact (wire_valid_uncompressed c ks its). Qed.
+   not), with permessage-deflate negotiated or not ([pmd]), EVERY write buffer size B >= 1
+   (blen = B + maxFrameHeaderSize >= 15), EVERY admissible sequence of operations -- every
+   message size, every mix of the write APIs, every partition into partial writes, compression
+   switched on and off and its level changed between messages, writers left open and closed
+   implicitly, prepared messages sent any number of times -- that ends with no writer open:
+   no call fails; the bytes put on the transport parse completely under the independent parser;
+   the frames satisfy [rfc_valid] (known opcodes, RSV2/3 clear, RSV1 only with the extension and
+   only on the first frame of a message, never on control frames, mask bit by role, MINIMAL
+   length form, control frames final and <= 125 bytes, FIN/continuation sequencing, the wire
+   ends between messages); the event list of the parsed frames -- data messages (type,
+   compressed?, payload) and control frames (opcode, payload) interleaved in wire order -- is
+   exactly the specification's; in particular [messages] returns the data messages written,
+   in order (c13_roundtrip for the independent reassembly).  For a compressed message the
+   payload is its flate stream minus the trailing 00 00 ff ff (see c13_roundtrip_compressed). *)
+Theorem c13_wire_valid c pmd pms ks os sp' evs :
+  15 <= blen c < big -> Forall (fun k : bytes => length k = 4%nat) ks ->
+  spec_run pmd pms spec0 os = Some (sp', evs) -> sp_ph sp' = SClosed ->
+  exists s', run_oplist c pms (init_cst pmd ks) os = Ok (s', eOK) /\
+  exists fs, rfc_parse (wire_of s') = Some fs /\ rfc_valid (srv c) pmd fs = true /\
+             events fs = Some evs /\ messages fs = Some (filter data_event evs).
+Proof. exact (wire_valid_ops c pmd pms ks os sp' evs). Qed.
 
-(* non-vacuity: a client with a 16-byte buffer, a fragmented text message written through
-   Write / WriteControl / ReadFrom / WriteString, a pong, and a 200-byte WriteMessage *)
+(* one step of it: the invariant [GInv] ties the model state to the specification state *)
+Theorem c13_step_refines c pmd pms s sp dn o sp' evs :
+  15 <= blen c < big -> GInv c pmd pms s sp dn -> spec_step pmd pms sp o = Some (sp', evs) ->
+  exists s', run_op c pms s o = Ok (s', eOK) /\ GInv c pmd pms s' sp' (dn ++ evs).
+Proof. intros Hb. exact (step_refines c pmd pms Hb s sp dn o sp' evs). Qed.
+
+Theorem c13_ops_are_harness_ops c pms s o : step_op c pms s (sx_of_op o) = run_op c pms s o.
+Proof. exact (run_op_is_step_op c pms s o). Qed.
+
+(* non-vacuity: a client with a 16-byte buffer; a binary message left open (with a ping between
+   its writes) and closed by the next WriteMessage; a 65-byte text message in five frames;
+   WriteJSON; a prepared message sent twice (second time from the cache); a pong *)
 Theorem c13_wire_valid_instance :
   let c := mkC false (16 + 14) in
-  let its := [IMsg 1 [WrWrite [104;105]; WrCtl 9 [1]; WrReadFrom (repeat 7 40) [3; 0] true; WrString []];
-              ICtl 10 []; IWriteMessage 2 (repeat 9 200)] in
-  Forall item_ok its /\
-  match run_items c (init_cst false [[1;2;3;4]]) its with
-  | Ok (s', e) => e = 0 /\ match rfc_parse (wire_of s') with
-                           | Some fs => rfc_valid false false fs = true /\ (4 <= length fs)%nat
-                           | None => False end
-  | _ => False
+  let os := [ONext 2 []; OWrite [1;2;3] []; OCtl 9 [7];
+             OWriteMessage 1 (repeat 65 40) [] [] [];
+             OEnable false; OJson [91;93;10] [] [] []; OPrepared 0 [] []; OPrepared 0 [] []; OCtl 10 []] in
+  match spec_run false [(1, [104;105])] spec0 os with
+  | Some (sp', evs) =>
+      sp_ph sp' = SClosed /\
+      evs = [(9, false, [7]); (2, false, [1;2;3]); (1, false, repeat 65 40); (1, false, [91;93;10]);
+             (1, false, [104;105]); (1, false, [104;105]); (10, false, [])] /\
+      match run_oplist c [(1, [104;105])] (init_cst false [[1;2;3;4]]) os with
+      | Ok (s', e) => e = 0 /\ option_map (fun fs => events fs) (rfc_parse (wire_of s')) = Some (Some evs)
+      | _ => False
+      end
+  | None => False
   end.
-Proof. exact wire_valid_instance. Qed.
+Proof. exact ops_instance. Qed.
 
-(* ---- c13_wire_valid_scripts: the same with prepared messages and their frame cache ----
-   [pms] are the session's PreparedMessage values; [PP i] is WritePreparedMessage(pms[i]) at any
-   point between messages, any number of times (the first send under the connection's
-   (role, compression, level) key computes and caches the frame -- on a client a fragmented run
-   of 4096-byte frames masked with freshly drawn keys --, later sends replay the cached bytes);
-   [PI it] is any item of c13_wire_valid.  Same conclusion. *)
-Theorem c13_wire_valid_scripts c pms ks xs :
-  15 <= blen c < big -> Forall (fun k : bytes => length k = 4%nat) ks -> Forall (pitem_ok pms) xs ->
-  exists s', run_pitems c pms (init_cst false ks) xs = Ok (s', eOK) /\
-  exists fs, rfc_parse (wire_of s') = Some fs /\ rfc_valid (srv c) false fs = true /\
-             messages fs = Some (concat (map (pitem_msgs pms) xs)).
-Proof. intros Hb. exact (wire_valid_scripts c pms Hb ks xs). Qed.
-
-Theorem c13_wire_valid_scripts_instance :
-  let c := mkC false (16 + 14) in
-  let pms := [(2, repeat 5 5000)] in
-  let xs := [PP 0; PI (IWriteMessage 1 [104; 105]); PP 0] in
-  Forall (pitem_ok pms) xs /\
-  match run_pitems c pms (init_cst false [[1;2;3;4]; [5;6;7;8]; [9;9;9;9]]) xs with
-  | Ok (s', e) => e = 0 /\ match rfc_parse (wire_of s') with
-                           | Some fs => rfc_valid false false fs = true /\ length fs = 5%nat
-                                        /\ option_map (@length _) (messages fs) = Some 3%nat
-                           | None => False end
-  | _ => False
-  end.
-Proof. exact scripts_instance. Qed.
-
-(* the same from any fresh connection state: whatever the 14-byte header area in front of the
-   write buffer holds initially (on a server it holds the first bytes of the handshake response,
-   written through the same buffer) and whatever the compression level field *)
-Theorem c13_wire_valid_any_header c h ks l its :
-  15 <= blen c < big -> length h = 14%nat ->
-  Forall (fun k : bytes => length k = 4%nat) ks -> Forall item_ok its ->
-  exists s', run_items c (cst0 (mkM h [] maxHdr 0 false ks [] 0) false l) its = Ok (s', eOK) /\
-  exists fs, rfc_parse (wire_of s') = Some fs /\ rfc_valid (srv c) false fs = true /\
-             messages fs = Some (concat (map item_msgs its)).
-Proof. exact (wire_valid_any_header c h ks l its). Qed.
-
-(* ---- prepared messages (keys without compression) ----
-   [seg_ok role v msgs]: v is a closed run of valid frames that reassembles to msgs.
-   PreparedMessage.frame(key) -- WriteMessage on a scratch connection with the default buffer,
-   so the client variant is fragmented at 4096 bytes -- is such a run carrying exactly the
-   message, for every size; the first WritePreparedMessage under a key computes, caches and
-   sends it; every later one sends the cached bytes and draws no mask key; both leave the
-   connection in the between-messages invariant [SInv] from which c13_wire_valid's induction
-   continues (SInv c s ds dn: the wire so far is the encoding of the frame list ds, valid, closed,
-   reassembling to dn). *)
-Theorem c13_prepared_frame is_srv l t p ks :
-  data_type t -> lenN p < big -> Forall (fun k : bytes => length k = 4%nat) ks ->
-  exists v ks', prepared_frame is_srv false l t p ks [] [] = Ok (v, ks', eOK) /\
-    seg_ok is_srv v [(t, false, p)] /\ Forall (fun k : bytes => length k = 4%nat) ks'.
-Proof. exact (prepared_frame_ok is_srv l t p ks). Qed.
-
-Theorem c13_prepared_first c s ds dn idx t p :
-  SInv c s ds dn -> data_type t -> lenN p < big ->
-  pfind (idx, srv c, false, lvl s) (pcache s) = None ->
-  exists s' ds' v, do_prepared c s idx t p [] [] = Ok (s', eOK) /\ SInv c s' ds' (dn ++ [(t, false, p)]) /\
-    seg_ok (srv c) v [(t, false, p)] /\ pcache s' = ((idx, srv c, false, lvl s), v) :: pcache s /\ lvl s' = lvl s.
-Proof. exact (do_prepared_miss c s ds dn idx t p). Qed.
-
-Theorem c13_prepared_again c s ds dn idx t p v :
-  SInv c s ds dn -> data_type t ->
-  pfind (idx, srv c, false, lvl s) (pcache s) = Some v -> seg_ok (srv c) v [(t, false, p)] ->
-  exists s' ds', do_prepared c s idx t p [] [] = Ok (s', eOK) /\ SInv c s' ds' (dn ++ [(t, false, p)]) /\
-    pcache s' = pcache s /\ keys (mw s') = keys (mw s) /\ lvl s' = lvl s.
-Proof. exact (do_prepared_hit c s ds dn idx t p v). Qed.
-
-(* WriteJSON on the same invariant: NextWriter(TextMessage) + one Write of the encoder's output
-   [enc] (encoding/json is an oracle) + Close, as the harness op 7 runs it *)
-Theorem c13_write_json c s ds dn enc : 15 <= blen c < big -> SInv c s ds dn -> lenN enc < big ->
-  exists s' ds', step_op c [] s (SL [SZ 7; SB enc; SL []; SL []]) = Ok (s', eOK)
-                 /\ SInv c s' ds' (dn ++ [(1, false, enc)]).
-Proof. exact (write_json_ok c s ds dn enc). Qed.
-
-(* what SInv means for an observer of the wire *)
-Theorem c13_invariant_meaning c s ds dn : SInv c s ds dn ->
-  exists fs, rfc_parse (wire_of s) = Some fs /\ rfc_valid (srv c) false fs = true /\ messages fs = Some dn.
-Proof. exact (SInv_final c s ds dn). Qed.
-
-(* ---- c13_wire_valid_compressed: permessage-deflate negotiated and enabled ----
-   compress/flate is an oracle: a message is described by the chunks the flate writer handed to
-   the truncWriter during each Write and during Close (fw.Flush); the only assumption is that
-   the whole stream ends with the sync-flush marker 00 00 ff ff ([zitem_ok]).  For every role,
-   buffer size, chunking and message sequence: no call fails (in particular the
-   "unexpected bytes at end of flate stream" check passes), the wire is [rfc_valid] with RSV1 on
-   exactly the first frame of every data message, and every message's reassembled payload is
-   its flate stream minus the last four bytes. *)
-Theorem c13_wire_valid_compressed c ks its :
-  15 <= blen c < big -> Forall (fun k : bytes => length k = 4%nat) ks -> Forall zitem_ok its ->
-  exists s', run_zitems c (init_cst true ks) its = Ok (s', eOK) /\
-  exists fs, rfc_parse (wire_of s') = Some fs /\ rfc_valid (srv c) true fs = true /\
-             messages fs = Some (concat (map zitem_msgs its)).
-Proof. exact (wire_valid_compressed c ks its). Qed.
-
-(* ... and appending 00 00 ff ff to that payload (RFC 7692 7.2.2, what the read side's
-   tail re-insertion does) inflates to the message, for any inflate/deflate pair with the
-   sync-flush law (Section hypothesis, discharged here by the caller: no axiom). *)
+(* what the receiver does with a compressed payload (RFC 7692 7.2.2, the read side's tail
+   re-insertion): appending 00 00 ff ff inflates to the message, for any inflate/deflate pair
+   with the sync-flush law (a hypothesis discharged by the caller: no axiom) *)
 Theorem c13_roundtrip_compressed
   (inflate : bytes -> option bytes) (deflate_of : bytes -> bytes -> Prop)
   (law : forall data stream, deflate_of data stream ->
            exists body, stream = body ++ flate_tail /\ inflate (body ++ flate_tail) = Some data)
   data stream :
   deflate_of data stream -> inflate (zbody stream ++ flate_tail) = Some data.
-Proof. exact (compressed_roundtrip inflate deflate_of law data stream). Qed.
+Proof.
+  intros H. destruct (law data stream H) as (body & -> & Hi). rewrite zbody_app. exact Hi.
+Qed.
 
 (* ---- c13_flush_frame: one flushFrame call = one RFC frame, header in front of the data ----
    For every state with a 14-byte header area (contents arbitrary: stale bytes of earlier frames
@@ -174,10 +116,16 @@ Theorem c13_parse_encoded is_srv (fin z : bool) op key pl rest :
   parse_one (enc_frame is_srv fin z op key pl ++ rest) = Some (abs_frame is_srv fin z op key pl, rest).
 Proof. exact (parse_enc is_srv fin z op key pl rest). Qed.
 
-(* ---- c13_trunc: truncWriter ----
-   every chunking of a stream of at least four bytes: everything but the last four bytes reaches
-   the underlying writer, in order; exactly the last four are retained; shorter streams emit
-   nothing. *)
+(* PreparedMessage.frame(key): WriteMessage on a scratch connection with the default buffer (so
+   the client variant is fragmented at 4096 bytes) is a closed run of valid frames carrying
+   exactly the message, compressed or not *)
+Theorem c13_prepared_frame is_srv cp l t p ks wch cch :
+  data_type t -> lenN p < big -> Forall (fun k : bytes => length k = 4%nat) ks -> zcond cp wch cch ->
+  exists v ks', prepared_frame is_srv cp l t p ks wch cch = Ok (v, ks', eOK) /\
+    seg_ok cp is_srv v [(t, cp, payload_of cp p wch cch)] /\ Forall (fun k : bytes => length k = 4%nat) ks'.
+Proof. exact (prepared_frame_ok is_srv cp l t p ks wch cch). Qed.
+
+(* ---- c13_trunc: truncWriter ---- *)
 Theorem c13_trunc chunks :
   let s := concat chunks in
   let r := tw_run tw0 chunks in
@@ -196,30 +144,21 @@ Proof. exact (trunc_writer_short chunks). Qed.
 Theorem c13_mask_involutive k pos b : mask_from k pos (mask_from k pos b) = b.
 Proof. exact (mask_from_involutive k b pos). Qed.
 
-(* the word-at-a-time loop of mask.go (any alignment of the buffer, any starting position)
-   computes the byte-at-a-time definition and returns (pos + len) & 3 *)
 Theorem c13_mask_words align k pos b :
   mask_words align k pos b = (mask_from k pos b, (pos + lenN b) mod 4).
 Proof. exact (mask_words_spec align k pos b). Qed.
 
-(* the rotating-key variant the executable model runs is the same function *)
 Theorem c13_mask_fast k pos b : length k = 4%nat -> mask_fast k pos b = mask_from k pos b.
 Proof. exact (mask_fast_spec k pos b). Qed.
 
 Print Assumptions c13_wire_valid.
+Print Assumptions c13_step_refines.
+Print Assumptions c13_ops_are_harness_ops.
 Print Assumptions c13_wire_valid_instance.
-Print Assumptions c13_wire_valid_scripts.
-Print Assumptions c13_wire_valid_scripts_instance.
-Print Assumptions c13_wire_valid_any_header.
-Print Assumptions c13_prepared_frame.
-Print Assumptions c13_prepared_first.
-Print Assumptions c13_prepared_again.
-Print Assumptions c13_write_json.
-Print Assumptions c13_invariant_meaning.
-Print Assumptions c13_wire_valid_compressed.
 Print Assumptions c13_roundtrip_compressed.
 Print Assumptions c13_flush_frame.
 Print Assumptions c13_parse_encoded.
+Print Assumptions c13_prepared_frame.
 Print Assumptions c13_trunc.
 Print Assumptions c13_trunc_short.
 Print Assumptions c13_mask_involutive.
